@@ -133,6 +133,16 @@ class Calculation(UnaryOperation):
                     f"{set(self.columns_required - current.target.columns)}",
                 ),
             )
+        if self.tag in current.target.columns:
+            # A column with this tag exists upstream but was projected away
+            # (the tag cannot be in current.columns, or _begin_apply would have
+            # raised); calculating it any further upstream would clash with it.
+            return UnaryCommutator(
+                first=None,
+                second=current.operation,
+                done=False,
+                messages=(f"{current.target} already has a column {self.tag}",),
+            )
         # If we commute a calculation before a projection, the
         # projection also needs to include the calculated column.
         return UnaryCommutator(
